@@ -105,6 +105,9 @@ def fixed_targets():
     T.append(dict(area({"proj": "stere", "lat_0": 90, "lon_0": 0, "lat_ts": 60, "ellps": "bessel",
                         "towgs84": "598.1,73.7,418.2,0.202,0.045,-2.455,6.7"}, 8, 8, (-4e5, -24e5, 4e5, -16e5), "bound_crs"), mp=True))
     T.append(dict(area({"proj": "eqc", "lon_0": 170, "over": True, "ellps": "WGS84"}, 8, 5, (-8.0e5, 1.0e6, 2.4e6, 3.0e6), "lon_over"), mp=True))
+    # dtype variant: float32 swath coordinates (pykdtree then works in binary32; the multi-process path does not)
+    T.append(dict(ll(0, 45, 20, 60, 10, 8, "float32_source"), mp=True, f32=True))
+    T.append(dict(stere(90, 37, (-5e5, -25e5, 5e5, -15e5), 9, 9, "float32_source"), mp=True, f32=True))
     T.append(stere(-90, 0, (-1e6, -1e6, 1e6, 1e6), 11, 13, "over_pole"))
     T.append(stere(-90, 140, (-5e5, 15e5, 5e5, 25e5), 10, 10, "rotated"))
     T.append(area({"proj": "laea", "lat_0": 52, "lon_0": 10, "ellps": "WGS84"}, 14, 12, (-7e5, -6e5, 7e5, 6e5), "mid_lat"))
@@ -296,6 +299,9 @@ def configs_for(ctx, rows, mp_ok, small):
         for s in segs + [None]:
             if (red, s) != (False, 1):
                 cfgs.append({"reduce": red, "segments": s, "nprocs": 1, "fresh_all": s in (2, None)})
+    # history on the target object: get_lonlats(cache=True) before the call (AreaDefinition targets; ignored for swaths)
+    cfgs.append({"reduce": False, "segments": 3, "nprocs": 1, "fresh_all": False, "cache_target": True})
+    cfgs.append({"reduce": True, "segments": 2, "nprocs": 1, "fresh_all": False, "cache_target": True})
     if mp_ok and small:
         if ctx.thorough:
             for red in (True, False):
@@ -318,6 +324,7 @@ def gen_cases(ctx, mp_ok):
         ps = pixel_scale(lon, lat)
         force = tgt.pop("force", None)
         mp_forced = tgt.pop("mp", False)
+        f32 = tgt.pop("f32", False)
         if force:
             radius = force["radius"]
         else:
@@ -341,6 +348,10 @@ def gen_cases(ctx, mp_ok):
         if n % 4 == 0 and ti % 2 == 0:
             shape = [n // 4, 4]
         src = {"kind": "swath", "lons": slon, "lats": slat, "shape": shape}
+        if f32:
+            slon = [float(np.float32(x)) for x in slon]
+            slat = [float(np.float32(x)) for x in slat]
+            src = {"kind": "swath", "lons": slon, "lats": slat, "shape": shape, "dtype": "float32"}
         mode = "swath_to_area"
         t_out, s_out = dict(tgt), src
         if ti % 6 == 5 and tgt["tag"] != "thin" and not force and not mp_forced:
@@ -418,6 +429,24 @@ def only_ties(a, b):
     return all(len(x) == len(y) and [d for _, d in x] == [d for _, d in y] for x, y in zip(a, b))
 
 
+def f32_close(a, b):
+    """neighbour maps with identical source indices whose distances agree up to what storing coordinates in binary32 can
+    change -> largest absolute difference (m); None otherwise.  Bound: a float32 longitude near 180 deg has spacing 2**-16 deg
+    (1.7 m on the sphere), a latitude 2**-17 deg (0.85 m), a cartesian coordinate near 6.4e6 m has spacing 0.5 m; both end
+    points may move by half of each, and the float32 distance itself carries a few ulps: 5 m + 2**-21 * d is generous for all."""
+    worst = 0.0
+    for x, y in zip(a, b):
+        if len(x) != len(y):
+            return None
+        for (i, d), (j, e) in zip(x, y):
+            if i != j:
+                return None
+            if abs(d - e) > 5.0 + max(abs(d), abs(e)) * 2.0 ** -21:
+                return None
+            worst = max(worst, abs(d - e))
+    return worst
+
+
 def tie_targets(a, b):
     """target pixels where two neighbour maps differ although the distance sequences are identical"""
     return {t for t, (x, y) in enumerate(zip(a, b)) if x != y and len(x) == len(y) and [d for _, d in x] == [d for _, d in y]}
@@ -427,12 +456,14 @@ RESULT_INFO = {"nn": "info1"}     # every other result type is computed from the
 
 
 def cfg_name(c):
-    return "reduce=%s,segments=%s,nprocs=%s" % (c["reduce"], c["segments"], c["nprocs"])
+    return "reduce=%s,segments=%s,nprocs=%s%s" % (c["reduce"], c["segments"], c["nprocs"], ",lonlats cached" if c.get("cache_target") else "")
 
 
 def which_component(cfg, base):
     if cfg["nprocs"] != base["nprocs"]:
         return "nprocs"
+    if cfg.get("cache_target") != base.get("cache_target"):
+        return "cached_lonlats"
     if cfg["segments"] != base["segments"]:
         return "segments"
     return "reduce"
@@ -502,6 +533,8 @@ def check_case(ctx, case, obs, report):
         rname = "the plain call" if is_ref else cfg_name(rcfg)
         comp = "reduce" if is_ref else which_component(cfg, rcfg)
         ties = {"info1": set(), "infok": set()}
+        f32_nprocs = case["source"].get("dtype") == "float32" and comp in ("nprocs", "cached_lonlats")
+        f32_rel = 0.0
         # -- neighbour info
         for kk in ("info1", "infok"):
             if infos[kk] is None:
@@ -518,6 +551,14 @@ def check_case(ctx, case, obs, report):
             if not is_ref and raw_equal(infos[kk], rinfo[kk]):
                 continue
             can, bcan = canon[kk], rcanon[kk]
+            if f32_nprocs and can != bcan:
+                rel = f32_close(can, bcan)
+                if rel is not None:
+                    # same neighbours, distances equal up to binary32 rounding: pykdtree worked in the swath's float32,
+                    # the multi-process path (scipy on a c_double copy) in float64
+                    f32_rel = max(f32_rel, rel)
+                    ties[kk] = set(range(T))
+                    continue
             if can == bcan:
                 if not is_ref:
                     # same neighbours for every target, yet the raw arrays differ (layout, padding, dtype-independent values)
@@ -543,6 +584,12 @@ def check_case(ctx, case, obs, report):
             report("C03.%s.neighbours" % comp, "%s: target pixel %d gets neighbours %s, %s gets %s (source index, distance)" % (
                 name, t, list(got), rname, list(want)),
                 {"config": cfg, "reference": rcfg, "stage": kk, "target_pixel": t, "got": list(got), "want": list(want)})
+        if f32_rel > 0.0:
+            why = ("its distance_array is float64 (scipy on a c_double copy) where the single-process one is float32 (pykdtree in the swath's dtype)"
+                   if comp == "nprocs" else
+                   "the stored target lon/lats are float64 while a fresh get_lonlats(dtype=float32) rounds the projection coordinates to float32 first")
+            report("C03.%s.float32_source" % comp, "%s finds the same neighbours as %s but %s: distances differ by up to %.3f m, so "
+                   "weighted results differ in the last digits of binary32" % (name, rname, why, f32_rel), {"config": cfg, "reference": rcfg})
         # -- final arrays of the fresh calls
         for di, d in enumerate(fresh):
             if d is None or rfresh[di] is None:
